@@ -18,25 +18,26 @@ Fixpoint up_of (t : list (string * option purl)) (u : string) : option purl :=
   end.
 
 (* one end-session request: the router it is sent to, the issuer the provider derives
-   for it (static, or from Host / Forwarded), the presented hint, the parameters *)
-Record ereq := { r_router : router; r_issuer : string; r_tok : tok;
+   for it (static, or from Host / Forwarded), the key ids the storage publishes while it is
+   served (keys rotate between requests), the presented hint, the parameters *)
+Record ereq := { r_router : router; r_issuer : string; r_keys : list string; r_tok : tok;
                  r_client : string; r_uri : string; r_state : string; r_fault : efault }.
 
 Definition to_esreq (x : ereq) : esreq :=
-  {| e_hint := classify (r_issuer x) (r_tok x); e_client := r_client x; e_uri := r_uri x;
+  {| e_hint := classify (r_issuer x) (r_keys x) (r_tok x); e_client := r_client x; e_uri := r_uri x;
      e_state := r_state x; e_fault := r_fault x |}.
 
 (* a sequence of requests to ONE provider instance *)
 Inductive input :=
-| IEnd (default_uri : string) (cs : list lclient) (t : tables) (reqs : list ereq).
+| IEnd (default_uri : string) (ts : tsfr) (cs : list lclient) (t : tables) (reqs : list ereq).
 
 Inductive observed := OEnd (xs : list eout).
 
 (* each answer depends on its own request only *)
 Definition model (i : input) : observed :=
   match i with
-  | IEnd d cs t reqs =>
-      OEnd (map (fun x => end_session (pm_of (t_pm t)) (up_of (t_up t)) d cs (r_router x) (to_esreq x)) reqs)
+  | IEnd d ts cs t reqs =>
+      OEnd (map (fun x => end_session (pm_of (t_pm t)) (up_of (t_up t)) d ts cs (r_router x) (to_esreq x)) reqs)
   end.
 
 (* ------------------------------------------------------------------ property *)
@@ -44,6 +45,7 @@ Section Spec.
   Variable pmatch : string -> string -> pres.
   Variable uparse : string -> option purl.
   Variable default_uri : string.
+  Variable ts : tsfr.
   Variable cs : list lclient.
 
   Definition hint_sub (h : hint) : string := match h with HGood _ s _ => s | _ => "" end.
@@ -91,6 +93,7 @@ Section Spec.
   (* an expired but otherwise valid hint (and a valid one) must be accepted when
      nothing else is wrong *)
   Definition must_accept (q : esreq) : bool :=
+    match ts with TS_Err => false | _ =>
     match e_hint q, e_fault q with
     | HGood _ _ azp, EF_None =>
         negb (contradicts q) &&
@@ -107,7 +110,11 @@ Section Spec.
                   end
               end)
     | _, _ => false
-    end.
+    end end.
+
+  (* a URI the storage itself chose through the optional TerminateSessionFromRequest *)
+  Definition storage_choice (loc : string) : bool :=
+    match ts with TS_Fixed l => String.eqb loc l | _ => false end.
 
   Definition spec_out (q : esreq) (x : eout) : bool :=
     match x with
@@ -117,7 +124,7 @@ Section Spec.
         | None => false
         | Some pc =>
             negb (contradicts q)
-            && (reaches default_uri (e_state q) loc
+            && (storage_choice loc || reaches default_uri (e_state q) loc
                 || (negb (String.eqb (e_uri q) "") &&
                     match find_lclient cs pc with
                     | Some c => registered_post c (e_uri q) && reaches (e_uri q) (e_state q) loc
@@ -138,7 +145,7 @@ Fixpoint spec_list (f : esreq -> eout -> bool) (reqs : list ereq) (outs : list e
 
 Definition spec (i : input) (o : observed) : bool :=
   match i, o with
-  | IEnd d cs t reqs, OEnd outs => spec_list (spec_out (pm_of (t_pm t)) (up_of (t_up t)) d cs) reqs outs
+  | IEnd d ts cs t reqs, OEnd outs => spec_list (spec_out (pm_of (t_pm t)) (up_of (t_up t)) d ts cs) reqs outs
   end.
 
 Definition pair_eqb (a b : string * string) : bool :=
@@ -179,7 +186,7 @@ Fixpoint path_list (reqs : list ereq) (outs : list eout) : nat :=
   end.
 
 Definition path (i : input) (o : observed) : nat :=
-  match i, o with IEnd _ _ _ reqs, OEnd outs => path_list reqs outs end.
+  match i, o with IEnd _ _ _ _ reqs, OEnd outs => path_list reqs outs end.
 
 Definition case_mismatches := run_mismatches model obs_eqb.
 Definition case_violations := run_violations spec.
